@@ -726,6 +726,10 @@ main(int argc, char **argv)
 	  else if (esl_opt_IsOn(go, "--seq-r") && ((nseq_read - nseq_regurged) != seqlist_n))  
 	    esl_fatal("Error, in alignment %d, did not find %d of the sequences listed in %s", nali, (seqlist_n - (nseq_read - nseq_regurged)), esl_opt_GetString(go, "--seq-r"));
 	}
+      /* the loop ends at the end of the file (eslEOF); anything else is a parse failure that must not pass silently with a truncated output */
+      if      (status == eslEFORMAT) esl_fatal("--small alignment file parse error:\n%s\n", afp2->errbuf);
+      else if (status != eslEOF)     esl_fatal("--small alignment file read failed with error code %d\n%s\n", status, afp2->errbuf);
+      if      (nali == 0)            esl_fatal("No alignments found in file %s\n", alifile);
     }
 
   /* Cleanup, normal return
